@@ -140,4 +140,6 @@ def c09 (g : Globals) (db : DB) (ss : List Stmt) : Option String :=
   | .mysql => none
   | _ => c05 g db ss
 
+def c07 (_g : Globals) (_db : DB) (_ss : List Stmt) : Option String := none
+
 end Sqlize.Spec.Scope
